@@ -174,6 +174,10 @@ def check_c05(pid, tier, t0, replay_key):
     findings += ft4
     obl += ot4
     st1.update(stt4)
+    ft6, ot6, stt6 = e5.rule_t6(P)
+    findings += ft6
+    obl += ot6
+    st1.update(stt6)
     measured = {"functions_scanned": st3["functions_scanned"], "discard_sites": st3["discard_sites"],
                 "merge_list": len(st1["merge_list"]), "has_arms": st1["has_arms"], "bytes_for_arms": st1["bytes_for_arms"],
                 "count_fields_checked": st1["count_fields_checked"]}
@@ -520,12 +524,16 @@ def check_c18(pid, tier, t0, replay_key):
     findings += ft5
     obl += ot5
     st.update(stt5)
+    fn5, on5, stn5 = e5.rule_n5(P)
+    findings += fn5
+    obl += on5
+    st.update(stn5)
     st["name_flow_prefixes"] = list(NAME_FLOW)
     common.check_floors(pid, st, tables)
     if tier == "thorough":
         st["selftest"] = run_selftest(pid)
     explanation = (
-        "Decides three clauses of C18. (T4) 'name ids coming from feature code are shifted past the ids already used': every output-table field that "
+        "Decides four clauses of C18. (N5) every name record derived from the source reaches the merge with the feature file's records, which replaces one only on an equal platform/encoding/language/name-id key (no dropping adapter in between). (T4) 'name ids coming from feature code are shifted past the ids already used': every output-table field that "
         "receives an id minted by fea-rs's NameBuilder (feature parameters, STAT) is one that Compilation::remap_name_ids adjusts - a forgotten field "
         "keeps naming the old id, i.e. no record or someone else's (this found FeatureParams::Size.name_entry, repaired). (T5) the function that hands out a "
         "fresh feature-code name id advances the allocator on every path (a group of empty names used to leave it untouched, so two features shared one "
